@@ -240,7 +240,13 @@ func (c *Child) Do(item any) Result {
 			res.Stderr = c.errbuf.String()
 			return res
 		case <-tick.C:
-			if cpuOf(pid)-subCPU0 > budget {
+			allowed := budget
+			if res.LastSub < 0 && allowed < 60*time.Second {
+				// before the first sub-case the child is still parsing the work item
+				// (tens of MiB of JSON for large batches): that is harness time
+				allowed = 60 * time.Second
+			}
+			if cpuOf(pid)-subCPU0 > allowed {
 				res.CPU = cpuOf(pid) - cpu0
 				// ask for a goroutine dump first (best effort), then kill
 				syscall.Kill(pid, syscall.SIGQUIT)
